@@ -289,6 +289,8 @@ class BitStringPayloadDecoder(AbstractSimplePayloadDecoder):
 
 class OctetStringPayloadDecoder(AbstractSimplePayloadDecoder):
     protoComponent = univ.OctetString('')
+    # fragments of all restricted string types are OCTET STRINGs (X.690 8.23.6)
+    fragmentSpec = univ.OctetString('')
     supportConstructedForm = True
 
     def valueDecoder(self, substrate, asn1Spec,
@@ -327,7 +329,7 @@ class OctetStringPayloadDecoder(AbstractSimplePayloadDecoder):
         # head = popSubstream(substrate, length)
         while substrate.tell() - original_position < length:
             for component in decodeFun(
-                    substrate, self.protoComponent, substrateFun=substrateFun,
+                    substrate, self.fragmentSpec, substrateFun=substrateFun,
                     **options):
                 if isinstance(component, SubstrateUnderrunError):
                     yield component
@@ -356,7 +358,7 @@ class OctetStringPayloadDecoder(AbstractSimplePayloadDecoder):
         while True:  # loop over fragments
 
             for component in decodeFun(
-                    substrate, self.protoComponent, substrateFun=substrateFun,
+                    substrate, self.fragmentSpec, substrateFun=substrateFun,
                     allowEoo=True, **options):
 
                 if isinstance(component, SubstrateUnderrunError):
